@@ -211,9 +211,9 @@ def execute(cfg, strategy, on_step=None, max_steps=None, attach=None):
     holder['tasks'] = tasks
     env = initial_env(cfg)
     holder['env'] = env
-    sched = _Scheduler(hard_graph=hard_graph, soft_graph=soft_graph,
-                       backend=Q_MOD.QueueScheduling(n_workers=cfg['workers']))
-    holder['backend'] = sched.backend
+    backend = Q_MOD.QueueScheduling(n_workers=cfg['workers'])
+    sched = _Scheduler(hard_graph=hard_graph, soft_graph=soft_graph, backend=backend)
+    holder['backend'] = backend
     # cfg['prior'] = dict(edges, outcome): before the run that is recorded, the same backend object serves another
     # scheduler whose graph has other edges over the same task objects, from an empty environment.  What the backend
     # did before must not matter to the recorded run.
@@ -221,7 +221,7 @@ def execute(cfg, strategy, on_step=None, max_steps=None, attach=None):
     if prior:
         pcfg = dict(n=cfg['n'], workers=cfg['workers'], edges=prior['edges'], outcome=prior['outcome'])
         _t, phard, psoft = build(pcfg, rs, tasks=tasks)
-        psched = _Scheduler(hard_graph=phard, soft_graph=psoft, backend=sched.backend)
+        psched = _Scheduler(hard_graph=phard, soft_graph=psoft, backend=backend)
         holder['recording'] = False
 
     def master():
@@ -284,7 +284,17 @@ def env_dict(env):
     cands = [v for v in vars(env).values() if isinstance(v, dict)]
     if len(cands) == 1:
         return cands[0]
+    # several dict-valued attributes: the environment is the one holding task entries (mappings with a 'status')
+    entries = [c for c in cands if any(isinstance(x, dict) and 'status' in x for x in c.values())]
+    if len(entries) == 1:
+        return entries[0]
+    if cands and not entries:            # nothing stored yet anywhere: read through the public interface
+        return {k: env[k] for k in list(env)} if not _lock_held(env) else cands[0]
     raise RuntimeError('cannot find the mapping of the environment object')
+
+
+def _lock_held(env):
+    return any(getattr(v, 'owner', None) is not None for v in vars(env).values() if hasattr(v, 'owner'))
 
 
 def status_name(env, i):
